@@ -625,19 +625,214 @@ class DerefCitations(Contract):
         return {k: info[k] for k in ("text", "q", "refs") if k in info}
 
 
+POSA = tm.arr_sort(INT, tm.arr_sort(INT, INT))
+SRC = tm.arr_sort(INT, INT)
+
+
+def _ref_state(ex, st):
+    """(R, W, POS, SRCA, SRCI) of the indexed citation model in state st"""
+    R = ex.models.list_term(st, st.env["references"], INT) if "references" in st.env else None
+    g = st.ghost
+    return R, g["WRITTEN"], g["POS"], g["SRCA"], g["SRCI"]
+
+
+def _bracket(p):
+    return tm.concat("[", tm.str_of_int(p), "]")
+
+
+def _entry_done(R, W, POS, f, i):
+    """entry i of feature f has been rewritten as the bracketed 1-based position of its reference in R"""
+    from pyvc import models_cit as MC
+    p = tm.select(tm.select(POS, f), i)
+    return tm.and_(tm.eq(tm.select(tm.select(W, f), i), _bracket(p)), tm.le(1, p), tm.le(p, tm.seqlen(R)),
+                   tm.eq(tm.seqnth(R, tm.sub(p, 1)), MC.cite(f, i)))
+
+
+def _nodup(R):
+    i, j = tm.V("i_", INT), tm.V("j_", INT)
+    return tm.forall([i, j], tm.implies(tm.and_(tm.le(0, i), tm.lt(i, j), tm.lt(j, tm.seqlen(R))),
+                                        tm.ne(tm.seqnth(R, i), tm.seqnth(R, j))))
+
+
+def _ref_common(con, R, W, POS, SRCA, SRCI):
+    from pyvc import models_cit as MC
+    F, R0 = con.F, con.R0
+    t = tm.V("t_", INT)
+    sa, si = tm.select(SRCA, t), tm.select(SRCI, t)
+    return [("initial-references-are-kept-in-place",
+             tm.and_(tm.le(tm.seqlen(R0), tm.seqlen(R)), tm.eq(tm.T("seq.extract", (R, tm.I(0), tm.seqlen(R0)), SEQI), R0))),
+            ("no-reference-listed-twice", _nodup(R)),
+            ("every-added-reference-is-cited-by-a-feature",
+             tm.forall_range(t, tm.seqlen(R0), tm.seqlen(R),
+                             tm.and_(tm.le(0, sa), tm.lt(sa, tm.seqlen(F)), tm.le(0, si), tm.lt(si, MC.ncit(tm.seqnth(F, sa))),
+                                     tm.eq(MC.cite(tm.seqnth(F, sa), si), tm.seqnth(R, t)))))]
+
+
+def _ref_havoc(ex, st, con):
+    st = st.fork()
+    refs = st.env["references"]
+    fresh = tm.fresh("R", SEQI)
+    if isinstance(refs, VObj) and refs.kind == "symlist":
+        st.set_inplace(refs, "seq", VT(fresh, "list"))
+    else:
+        # the list created by setdefault(..., []): same object in the local and in the annotations
+        o = ex.models.mk_symlist(st, fresh)
+        st.env["references"] = o
+        ann = st.get(con.record, "annotations")
+        items = dict(st.get(ann, "items"))
+        items["references"] = o
+        st.set_inplace(ann, "items", items)
+    st.ghost["WRITTEN"] = tm.fresh("W", con.W2)
+    st.ghost["POS"] = tm.fresh("POS", POSA)
+    st.ghost["SRCA"] = tm.fresh("SRCA", SRC)
+    st.ghost["SRCI"] = tm.fresh("SRCI", SRC)
+    return st
+
+
+class RefOuter(LoopSpec):
+    """for feature in record.features: every entry of every earlier feature is done"""
+
+    def __init__(self, con):
+        self.con = con
+
+    def havoc(self, ex, st, ctx, modified):
+        st = LoopSpec.havoc(self, ex, st, ctx, modified - {"references", "feature"})
+        return _ref_havoc(ex, st, self.con)
+
+    def invariant(self, ex, st, ctx):
+        from pyvc import models_cit as MC
+        con, k = self.con, ctx["k"]
+        R, W, POS, SRCA, SRCI = _ref_state(ex, st)
+        a, i = tm.V("a_", INT), tm.V("e_", INT)
+        fa = tm.seqnth(con.F, a)
+        return [("k-in-range", tm.le(k, tm.seqlen(con.F))),
+                ("entries-of-earlier-features-are-done",
+                 tm.forall([a, i], tm.implies(tm.and_(tm.le(0, a), tm.lt(a, k), tm.le(0, i), tm.lt(i, MC.ncit(fa))),
+                                              _entry_done(R, W, POS, fa, i))))] + _ref_common(con, R, W, POS, SRCA, SRCI)
+
+    def at_body_start(self, ex, st, ctx):
+        st = st.fork()
+        st.ghost["kf"] = ctx["k"]
+        return st
+
+
+class RefInner(LoopSpec):
+    """for i, ref in enumerate(citation list of feature F[kf]): the outer invariant, plus the entries before i are done"""
+
+    def __init__(self, con):
+        self.con = con
+
+    def havoc(self, ex, st, ctx, modified):
+        st = LoopSpec.havoc(self, ex, st, ctx, modified - {"references", "feature"})
+        return _ref_havoc(ex, st, self.con)
+
+    def invariant(self, ex, st, ctx):
+        from pyvc import models_cit as MC
+        con, k, kf = self.con, ctx["k"], st.ghost["kf"]
+        R, W, POS, SRCA, SRCI = _ref_state(ex, st)
+        a, i = tm.V("a_", INT), tm.V("e_", INT)
+        fa, f = tm.seqnth(con.F, a), tm.seqnth(con.F, kf)
+        return [("i-in-range", tm.le(k, tm.imax(MC.ncit(f), 0))),
+                ("entries-of-earlier-features-are-done",
+                 tm.forall([a, i], tm.implies(tm.and_(tm.le(0, a), tm.lt(a, kf), tm.le(0, i), tm.lt(i, MC.ncit(fa))),
+                                              _entry_done(R, W, POS, fa, i)))),
+                ("earlier-entries-of-this-feature-are-done",
+                 tm.forall_range(i, 0, k, _entry_done(R, W, POS, f, i)))] + _ref_common(con, R, W, POS, SRCA, SRCI)
+
+    def at_body_start(self, ex, st, ctx):
+        st = st.fork()
+        st.ghost["R_at_start"] = _ref_state(ex, st)[0]
+        return st
+
+    def hints(self, ex, st, ctx):
+        """facts of the theory of sequences (aux lemmas seq-absent, seq-snoc), instantiated at this step"""
+        from pyvc import models_cit as MC
+        R0 = st.ghost["R_at_start"]
+        x = MC.cite(tm.seqnth(self.con.F, st.ghost["kf"]), tm.sub(ctx["k"], 1))
+        t = tm.V("t", INT)
+        return [tm.or_(tm.T("seq.contains", (R0, tm.sequnit(x)), BOOL),
+                       tm.forall_range(t, 0, tm.seqlen(R0), tm.ne(tm.seqnth(R0, t), x))),
+                snoc_fact(R0, x)]
+
+    def at_body_end(self, ex, st, ctx):
+        """ghost bookkeeping: the position written for this entry; the witness of an appended reference"""
+        st = st.fork()
+        k, kf = ctx["k"], st.ghost["kf"]
+        f = tm.seqnth(self.con.F, kf)
+        R, W, POS, SRCA, SRCI = _ref_state(ex, st)
+        ri = st.env.get("ref_index")
+        if isinstance(ri, VT) and ri.t.sort == INT:
+            st.ghost["POS"] = tm.store(POS, f, tm.store(tm.select(POS, f), k, ri.t))
+        n0 = tm.seqlen(st.ghost["R_at_start"])
+        grew = tm.lt(n0, tm.seqlen(R))
+        st.ghost["SRCA"] = tm.ite(grew, tm.store(SRCA, n0, kf), SRCA)
+        st.ghost["SRCI"] = tm.ite(grew, tm.store(SRCI, n0, k), SRCI)
+        return st
+
+
 class RefCitations(Contract):
-    """ASSUMED at this level (trusted_body): every citation qualifier is rewritten as the bracketed 1-based index of
-    its reference in the record's reference list, new references being appended.
-    Effect: CIT[e] := R(CIT[e], REFS[e]); REFS[e] := RR(CIT[e], REFS[e])."""
+    """every citation entry (a Reference) of every feature is rewritten as the bracketed 1-based index of that reference
+    in the record's reference list; references not yet listed are appended, once; listed ones keep their place.
+    Verified on the indexed model (features = sequence of identities, cite(f,i) = the reference cited by entry i of
+    feature f, WRITTEN = the texts stored); at call sites in assemble() the effect is named abstractly:
+    CIT[e] := R(CIT[e], REFS[e]); REFS[e] := RR(CIT[e], REFS[e])."""
     file, qual = FILE, "AssemblyManager._ref_citations"
     props = ("C07", "C10")
-    trusted_body = True
+    variants = ("with-reference-list", "no-reference-list")
 
     def setup(self, ex, st, variant):
-        mgr, v, M = mk_manager(ex, st)
-        init_cells(ex, st)
-        e = abstract_entity(st, "AbstractModule", tm.V("e", INT))
-        return dict(self=mgr, record=st.get(e, "record"))
+        from pyvc import models_cit as MC
+        self.W2 = MC.W2
+        ex.models.elem_kind = "CitFeature"
+        mgr = VObj("AssemblyManager")
+        rec = VObj("CircularRecord")
+        self.record = rec
+        self.F = tm.V("F", SEQI)
+        ann = VDict(new_oid())
+        if variant == "with-reference-list":
+            self.R0 = tm.V("R0", SEQI)
+            st.set_inplace(ann, "items", {"references": ex.models.mk_symlist(st, self.R0)})
+        else:
+            self.R0 = tm.seqempty(INT)
+            st.set_inplace(ann, "items", {})
+        st.set_inplace(rec, "annotations", ann)
+        st.set_inplace(rec, "features", VT(self.F, "list"))
+        st.ghost["WRITTEN"] = tm.V("W0", MC.W2)
+        st.ghost["POS"] = tm.V("POS0", POSA)
+        st.ghost["SRCA"] = tm.V("SRCA0", SRC)
+        st.ghost["SRCI"] = tm.V("SRCI0", SRC)
+        self.loops = {0: RefOuter(self), 1: RefInner(self)}
+        return dict(self=mgr, record=rec)
+
+    def requires(self, ex, st, a):
+        if a["record"] is not getattr(self, "record", None):
+            return []
+        i, j = tm.V("i_", INT), tm.V("j_", INT)
+        return [("features-are-distinct-objects",
+                 tm.forall([i, j], tm.implies(tm.and_(tm.le(0, i), tm.lt(i, j), tm.lt(j, tm.seqlen(self.F))),
+                                              tm.ne(tm.seqnth(self.F, i), tm.seqnth(self.F, j))))),
+                ("listed-references-are-pairwise-distinct", _nodup(self.R0))]
+
+    def ensures(self, ex, pre, st, a, result):
+        if a["record"] is not getattr(self, "record", None):
+            return []
+        from pyvc import models_cit as MC
+        ann = st.get(a["record"], "annotations")
+        refs = st.get(ann, "items").get("references")
+        if refs is None:
+            return [("reference-list-present-afterwards", tm.FALSE)]
+        R = ex.models.list_term(st, refs, INT)
+        g = st.ghost
+        W, POS = g["WRITTEN"], g["POS"]
+        x, i = tm.V("a_", INT), tm.V("e_", INT)
+        fa = tm.seqnth(self.F, x)
+        p = tm.select(tm.select(POS, fa), i)
+        out = [("every-citation-is-the-bracketed-1-based-index-of-its-reference",
+                tm.forall([x, i], tm.implies(tm.and_(tm.le(0, x), tm.lt(x, tm.seqlen(self.F)), tm.le(0, i), tm.lt(i, MC.ncit(fa))),
+                                             _entry_done(R, W, POS, fa, i)))),
+               ("features-list-untouched", tm.B(st.get(a["record"], "features") is pre.get(a["record"], "features")))]
+        out += _ref_common(self, R, W, POS, g["SRCA"], g["SRCI"])
+        return out
 
     def result(self, ex, st, a):
         st = st.fork()
@@ -651,6 +846,19 @@ class RefCitations(Contract):
         st.ghost["CIT"] = tm.store(cit, e, R(c, r))
         st.ghost["REFS"] = tm.store(refs, e, RR(c, r))
         return [(st, NONE)]
+
+    def aux_lemmas(self, ex):
+        from pyvc.solve import Obligation
+        P, e, t = tm.V("P", SEQI), tm.V("e", INT), tm.V("t", INT)
+        Pe = tm.seqcat(P, tm.sequnit(e))
+        return [Obligation("seq-absent", [tm.not_(tm.T("seq.contains", (P, tm.sequnit(e)), BOOL)), tm.le(0, t), tm.lt(t, tm.seqlen(P))],
+                           tm.ne(tm.seqnth(P, t), e), kind="B", text="not contains(P, [e]) => nth(P, t) != e"),
+                Obligation("seq-snoc", [tm.le(0, t), tm.lt(t, tm.seqlen(P))],
+                           tm.and_(tm.eq(tm.seqnth(Pe, t), tm.seqnth(P, t)), tm.eq(tm.seqnth(Pe, tm.seqlen(P)), e)),
+                           kind="B", text="nth(P ++ [e], t) = nth(P, t) for t < |P|, and nth(P ++ [e], |P|) = e")]
+
+    def model_terms(self, ex, st, a):
+        return dict(F=self.F, R0=self.R0) if a["record"] is getattr(self, "record", None) else {}
 
 
 class SaveCitations(Contract):
